@@ -13,6 +13,8 @@ MANIFEST_ENTRY = {
     "note": "Shape-bounded servermaps (values symbolic), hence level 'other'. ServerMap's own queries are C11's contracts and are executed for real here. 'A successful repair leaves N distinct shares' depends on the publish protocol (C47) and is not claimed.",
     "technique": "contract-based deductive verification (pyvc VCs + z3) over enumerated servermap shapes; call-log ghost state",
 }
+MANIFEST_ENTRY["text"] += ' Bounded end-to-end stand-in (run-time contract, never counted as proved): contracts/grid_mutable.py publishes 1..4 versions (plus a competing one) of SDMF/MDMF files on real StorageServers, composes the final disk state slot by slot from snapshots (newest/older/competing/deleted/bit-flipped/truncated/foreign), and checks reads, the MODE_READ survey, check/verify, repair with and without force, overwrite with failing servers and two concurrent writers against the ground truth on disk.'
+MANIFEST_ENTRY["technique"] += "; plus bounded end-to-end run-time scenario contracts on an in-process grid of the real components (stand-in, labelled bounded)"
 EXPLANATION = "Checker/repairer decision logic on symbolic servermaps."
 TRUSTED = []
 ASSUMPTIONS = []
